@@ -591,7 +591,7 @@ def build(repo, out_path, vacuity=False, contracts_dir=None, preamble_dir=None):
     w = Weaver(repo, vacuity=vacuity)
     order = [l.strip() for l in open(os.path.join(contracts_dir, 'ORDER')).read().split() if l.strip() and not l.startswith('#')]
     env = {'MODULE': w.MODULE, 'RAW': w.RAW, 'ITEM': w.ITEM, 'IMPL': w.IMPL, 'END': w.END, 'FN': w.FN, 'PROOF': w.PROOF,
-           'VACUITY': vacuity}
+           'VACUITY': vacuity, 'REPO': repo, 'LostAnchor': LostAnchor}
     for name in order:
         path = os.path.join(contracts_dir, name)
         code = compile(open(path, encoding='utf-8').read(), path, 'exec')
